@@ -369,6 +369,8 @@ var c13Honest bool
 
 func c13PickDT(r *rand.Rand, mode int) time.Duration {
 	switch mode {
+	case 8: // one block a day (a whole reward year in 365 blocks)
+		return 24 * time.Hour
 	case 9: // an ordinary chain: about 15 s per block
 		return 14*time.Second + time.Duration(r.Intn(2000))*time.Millisecond
 	case 0: // regular
@@ -482,6 +484,14 @@ func c13RunChainS(seed int64, idx int, nblocks int, scenario int) c13Chain {
 	if scenario == 3 {
 		o.Interval, relaunchAt = 5, 10
 	}
+	if scenario == 4 {
+		// a whole SHORT reward year with a non-empty delegation pool: one block a day, cycle 10, a single
+		// year of 3.65M OLT, pool = the validators' power (2000 OLT, one delegator)
+		o = c13Opts{Cycle: 10, Est: 864000, Window: 86400, Interval: 5, Burnout: "5000000000000000000", Shares: []string{"3650000" + c13E18}}
+		ch.Opts = o
+		ro = c13RewardOptions(o)
+		delegMode, dtMode = 5, 8
+	}
 	if relaunchAt > 0 {
 		if relaunchAt < 2 {
 			relaunchAt = 2
@@ -504,6 +514,8 @@ func c13RunChainS(seed int64, idx int, nblocks int, scenario int) c13Chain {
 			total.Add(total, c13Big(a))
 		}
 		switch delegMode {
+		case 5:
+			add(w.Users[0], "2000"+c13E18)
 		case 1:
 			for i := 0; i < 1+r.Intn(3); i++ {
 				add(w.Users[i], []string{"1", "2", "3", "7"}[r.Intn(4)])
@@ -625,7 +637,7 @@ func c13RunChainS(seed int64, idx int, nblocks int, scenario int) c13Chain {
 			}
 		}
 		switch {
-		case scenario > 0 && b == 2:
+		case scenario > 0 && scenario < 4 && b == 2:
 			in.Txs = append(in.Txs, txDelegate(w.Users[0], oltAmt("1000"+c13E18), memo()))
 			blk.Txs = append(blk.Txs, "delegate 1000")
 			dmeta[len(in.Txs)-1] = [2]int64{0, 1000}
@@ -1166,8 +1178,12 @@ func c13Main(args []string) int {
 	rep := c13Report{Hist: map[string]int{}}
 	chains := []c13Chain{}
 	if *directed {
-		for sc := 1; sc <= 3; sc++ {
-			chains = append(chains, c13RunChainS(*seed, -sc, 11, sc))
+		for sc := 1; sc <= 4; sc++ {
+			n := 11
+			if sc == 4 {
+				n = 372
+			}
+			chains = append(chains, c13RunChainS(*seed, -sc, n, sc))
 		}
 	}
 	for i := 0; i < *nchains; i++ {
